@@ -43,6 +43,19 @@ pub trait UriExt {
             return true
         }
 
+        // The client libraries normalise the host name before connecting:
+        // upper case is folded and the various legacy spellings of IPv4
+        // addresses (`127.1`, `2130706433`, `0x7f.0.0.1`, …) end up as
+        // plain addresses. Look at the host the way they will.
+        if let Ok(url) = reqwest::Url::parse(&format!("https://{authority}/")) {
+            if let Some(host) = url.host_str() {
+                let host = host.trim_start_matches('[').trim_end_matches(']');
+                if host == "localhost" || IpAddr::from_str(host).is_ok() {
+                    return true
+                }
+            }
+        }
+
         false
     }
 
